@@ -804,9 +804,19 @@ func (f *fnCtx) call(c *ast.CallExpr, stmt bool) string {
 					}
 				case kOpaque, kUnit:
 					// an object built in place (an event with its attributes): the integer variables of the function that
-					// occur in its construction, in source order
+					// occur in its construction, in source order; a composite literal also names the effect by a hash of its
+					// source text (pinned among the uninterpreted items), so that another literal is another effect
 					if _, _, isPath := f.pathOf(a); !isPath {
 						ia = append(ia, f.intLocalsIn(a)...)
+						lit := a
+						if u, ok := lit.(*ast.UnaryExpr); ok && u.Op == token.AND {
+							lit = u.X
+						}
+						if _, isLit := lit.(*ast.CompositeLit); isLit {
+							src := strings.Join(strings.Fields(exprSrc(a)), " ")
+							name += "#" + shortHash(src)
+							f.g.opaqueC = append(f.g.opaqueC, f.lean+": literal "+shortHash(src)+" = "+src)
+						}
 					}
 				}
 			}
@@ -827,15 +837,25 @@ func (f *fnCtx) call(c *ast.CallExpr, stmt bool) string {
 			if tup, isTup := tv.Type.(*types.Tuple); isTup && tup.Len() == 0 {
 				// a call for its effect only, on something the translator does not interpret
 				var ia []string
+				litTag := ""
 				for _, a := range c.Args {
 					switch f.g.classifySafe(f.typeOf(a)).k {
 					case kNat, kInt, kBig, kSdk, kDec:
 						ia = append(ia, f.asInt(a))
 					case kOpaque, kUnit:
 						ia = append(ia, f.intLocalsIn(a)...)
+						lit := a
+						if u, ok := lit.(*ast.UnaryExpr); ok && u.Op == token.AND {
+							lit = u.X
+						}
+						if _, isLit := lit.(*ast.CompositeLit); isLit {
+							src := strings.Join(strings.Fields(exprSrc(a)), " ")
+							litTag += "#" + shortHash(src)
+							f.g.opaqueC = append(f.g.opaqueC, f.lean+": literal "+shortHash(src)+" = "+src)
+						}
 					}
 				}
-				f.effect(exprFull(c.Fun), ia)
+				f.effect(exprFull(c.Fun)+litTag, ia)
 				return "()"
 			}
 		}
@@ -871,7 +891,7 @@ func (f *fnCtx) intLocalsIn(a ast.Expr) []string {
 		if id, ok := n.(*ast.Ident); ok {
 			if o, ok := f.localVar(id); ok {
 				switch f.g.classifySafe(o.Type()).k {
-				case kNat, kInt:
+				case kNat, kInt, kBig:
 					if _, isRoot := f.roots[o]; !isRoot {
 						ia = append(ia, f.asInt(id))
 					}
